@@ -21,6 +21,8 @@ mod rng;
 mod server;
 mod symbol_def;
 mod utils;
+#[cfg(parol_verif)]
+mod verif_driver;
 
 extern crate clap;
 extern crate parol_runtime;
@@ -93,6 +95,10 @@ where
 }
 
 fn main() -> Result<(), Box<dyn Error>> {
+    #[cfg(parol_verif)]
+    if std::env::var("PAROL_LS_VERIF").is_ok() {
+        return verif_driver::run();
+    }
     env_logger::init();
     debug!("env logger started");
 
